@@ -27,7 +27,7 @@ CLAIMED = {
         note="as C01; version_table name/schema/pk settings do not enter the bookkeeping logic: they are exercised by running every command on a fresh MigrationContext that reads the heads back from the table (harness/rev_ctx.py); rows are assumed to resolve to themselves (full ids).",
         technique=T_GENERIC),
     "C04": dict(engine="online", ref="6/C04",
-        text="Lean theorems over Model.Online.runFinal (begin_transaction decision tree, _ProxyTransaction.__exit__, per-step block of run_migrations, autocommit_block) for every plan length, every failing migration and every failure position, all (transactional_ddl, transaction_per_migration, external) settings: single_txn, per_migration, recorded_exactly_completed, nontransactional, rows_at_boundary, never_names_failed. Compared with the real MigrationContext on SQLite file databases (pysqlite default and the BEGIN recipe) with exhaustive failure positions; the Lean checker judges the post-failure observation of the real code.",
+        text="Lean theorems over Model.Online.runFinal (begin_transaction decision tree, _ProxyTransaction.__exit__, per-step block of run_migrations, autocommit_block) for every plan length, every failing migration and every failure position, all (transactional_ddl, transaction_per_migration, external) settings: single_txn, per_migration, recorded_exactly_completed, nontransactional, rows_at_boundary, never_names_failed. Compared with the real MigrationContext on SQLite file databases (pysqlite default and the BEGIN recipe) with exhaustive failure positions; the Lean checker judges the post-failure observation of the real code. Rounds on one connection: run_leaves_no_txn, round_failure_eq_standalone, rounds_independent (per-migration regime, each round with at least one migration), round_without_migrations_leaves_txn (kernel-checked witness of finding C04-F2), read_noop (a migration reading the current heads changes nothing).",
         note="backend DDL modes are a model (pysqlite legacy and SQLite BEGIN recipe validated live; PostgreSQL/MSSQL/MySQL servers not); single_txn/per_migration carry the hypothesis 'no autocommit_block before the failure'; version statements are parameters read from the real HeadMaintainer (row algebra is C03); migration bodies may contain op.batch_alter_table blocks; an offline (--sql) stream injects the same failures, reports a failure the command swallowed and applies the script emitted up to the failure to a copy of the start database, judged by the same Spec.Online.check (no Lean model run for offline cases: framing is C18's).",
         technique=T_GENERIC),
     "C05": dict(engine="rev", ref="6/C05",
@@ -71,7 +71,7 @@ CLAIMED = {
         note="the lexer/shapes describe the databases' grammars; SQLAlchemy-rendered type/default texts opaque; reserved words read from the live dialect; MSSQL sp_rename(table)/_ExecDrop* and MySQL DROP CONSTRAINT are modelled and compared but have no positive theorem; the _exec strip/TAB step is covered by correspondence only.",
         technique=T_GENERIC),
     "C15": dict(engine="rev", ref="6/C15",
-        text="cyclic_rejected: whatever loads has no directed cycle among its down-revision and dependency links (any set of revisions each linking into the set survives every pass of _revisions_in_cycles, so _detect_cycles raises); acyclic_accepted / acyclic_loads: a well-formed history whose links admit a rank function passes all six checks of _detect_cycles (every revision lies between a head and a base; the peeling ends empty within n passes); heads_bases: reported heads/real heads/bases/real bases are exactly the revisions nobody's down-revision / nobody links to / without down-revision / without links; traversals return the full reachable set within their fuel (closure_total; the sort: C01/C02). The defect F1 (reachability-only check) is repaired in /repo and the model mirrors the repaired code. Every digraph on <=3 revisions (thorough 4) is loaded through the real RevisionMap and compared. Also no_cycle_acyclic (on a finite graph 'no directed cycle' = 'admits a rank function'), no_cycle_accepted, heads_bases_history, and hasCycle_iff: the oracle decides 'directed cycle' on the history as written.",
+        text="cyclic_rejected: whatever loads has no directed cycle among its down-revision and dependency links (any set of revisions each linking into the set survives every pass of _revisions_in_cycles, so _detect_cycles raises); acyclic_accepted / acyclic_loads: a well-formed history whose links admit a rank function passes all six checks of _detect_cycles (every revision lies between a head and a base; the peeling ends empty within n passes); heads_bases: reported heads/real heads/bases/real bases are exactly the revisions nobody's down-revision / nobody links to / without down-revision / without links; traversals return the full reachable set within their fuel (closure_total; the sort: C01/C02). The defect F1 (reachability-only check) is repaired in /repo and the model mirrors the repaired code. Every digraph on <=3 revisions (thorough 4) is loaded through the real RevisionMap and compared. Also no_cycle_acyclic (on a finite graph 'no directed cycle' = 'admits a rank function'), no_cycle_accepted, heads_bases_history, and hasCycle_iff: the oracle decides 'directed cycle' on the history as written. The lazily loaded RevisionMap as a state machine (Model/Rev/Memo.lean): C15.cyclic_refused_every_read - on one object every read of _revision_map / heads / bases / _real_heads / _real_bases raises when the links contain a cycle, not only the first - compared read by read with one real object (rev.memo), the ScriptDirectory accessors probed after a refusal.",
         note="links are down-revisions plus dependencies as the code resolves them (ids first, then branch labels); duplicate revision ids are C19's business.",
         technique=T_GENERIC),
     "C16": dict(engine="rev", ref="6/C16",
@@ -79,7 +79,7 @@ CLAIMED = {
         note="relative and branch-qualified targets end to end: C16.rel_up_id / rel_up_row / rel_up_empty / rel_up_empty_label / rel_down_id / rel_dgrade_id / rel_dgrade_row (rev+N, +N from the single row, rev-N, bare -N: exactly N down_revision links as written in the files, base only at distance N-1 from a root, -N restricted to the row's branch) and C16.branch_head / branch_head_ambiguous / branch_heads (<label or id>@head = the single head sharing the branch's lineage, several are refused; <label or id>@heads = exactly the heads sharing it) for every target the pattern model matchRelative splits that way; label@+N / label@-N (start at the branch tip: Spec.Rev.relUpStarts), +N with several rows and the regular expression itself are compared and judged by oracles only; get_revisions('-N') is modelled for the plain ASCII spelling of the number.",
         technique=T_GENERIC),
     "C17": dict(engine="gen", ref="6/C17",
-        text="repr_roundtrip / repr_file (the four identifier assignments of script.py.mako decode to the requested values for ALL strings and tuples), incremental (for every well-formed history that loads and every accepted new revision, add_revision succeeds, the extended history loads, and the incrementally updated map equals the reloaded map in the FULL view incl. branch labels - the label defect F5 is repaired in /repo), filename_suffix/accepted; counterexamples for the unescaped docstring (F12) and a '.#' id are kernel-checked and recorded. After every real generate_revision/command.revision/command.merge call the incremental ScriptDirectory is compared with a fresh one and with the model.",
+        text="repr_roundtrip / repr_file (the four identifier assignments of script.py.mako decode to the requested values for ALL strings and tuples), incremental (for every well-formed history that loads and every accepted new revision, add_revision succeeds, the extended history loads, and the incrementally updated map equals the reloaded map in the FULL view incl. branch labels - the label defect F5 is repaired in /repo), filename_suffix/accepted; counterexamples for the unescaped docstring (F12) and a '.#' id are kernel-checked and recorded. After every real generate_revision/command.revision/command.merge call the incremental ScriptDirectory is compared with a fresh one and with the model. Since the repair of C17-F17 the files of the directory are model state (DirState / stepCallF): C17.generate_refuses_taken_file and the sequence invariant C17.runCallsF_files - along every sequence of calls no accepted call replaces a file, paths stay pairwise distinct; the harness hands the model the files present and each call's path built from the model's own file name.",
         note="Mako substitution is literal; Python tokenizer/importer and filesystem exercised live; \\w and str.lower() are parameters; version_path / file_template handling is covered by correspondence; whether the rendered text fits the configured output_encoding is a parameter (GenArgs.encodable, computed with str.encode) - C17.generate_refuses_unencodable: such a call is refused before anything is written; sourceless directories are also run with the byte code Python caches next to the sources.",
         technique=T_GENERIC),
     "C18": dict(engine="txn", ref="6/C18",
